@@ -25,6 +25,7 @@ def main():
         cfgs = [(1, 3), (2, 3), (3, 3), (4, 2)] if not run.thorough else [(1, 4), (2, 4), (3, 3), (3, 4), (4, 3), (5, 2)]
         for depth, ups in cfgs:
             stubs.PARAMS['depth'], stubs.PARAMS['updates'] = depth, ups
+            stubs.PARAMS['alias'] = 1 if depth <= 2 else 0      # the same big.Int object written to several leaves (shared backing array): small depths only
             label = '%s[depth=%d,updates=%d]' % (e, depth, ups)
             res, ex = driver.run_entry(run, prog, e, stubs.make_stubs(), loop_bound=160, max_paths=200000, label=label)
             run.log(label, run.extra['paths'].get(label), 'solver calls', ex.solver_calls, '%.1fs' % ex.solver_time)
